@@ -105,6 +105,10 @@ func spawnWorker(self string, p *Prop, tier string, seed uint64, w workerSpec, t
 			if ee, ok := err.(*exec.ExitError); ok && ee.ExitCode() == 66 && p.Race {
 				// exit code 66 = the race detector's own exit code; the worker's JSON is still complete
 			} else if out.Len() == 0 {
+				if idx, msg, ok := crashInfo(errb.String()); ok {
+					// the library brought the process down (fatal error / unrecovered panic): a finding, not harness trouble
+					return &WorkerResult{Prop: p.ID, Stopped: "crash", CrashIdx: idx, CrashMsg: msg, NextIdx: idx + w.stride}, nil
+				}
 				return nil, fmt.Errorf("worker failed: %v\n%s", err, tail(errb.String(), 4000))
 			}
 		}
@@ -121,6 +125,22 @@ func spawnWorker(self string, p *Prop, tier string, seed uint64, w workerSpec, t
 		return &res, fmt.Errorf("worker reported harness errors: %s", strings.Join(res.HarnessErrs, "; "))
 	}
 	return &res, nil
+}
+
+// crashInfo extracts the index of the run a worker died in and the first line of the Go runtime's fatal message.
+func crashInfo(stderr string) (int, string, bool) {
+	idx, msg := -1, ""
+	for _, l := range strings.Split(stderr, "\n") {
+		if strings.HasPrefix(l, "RUN ") {
+			if v, err := strconv.Atoi(strings.TrimSpace(l[4:])); err == nil {
+				idx = v
+			}
+		}
+		if msg == "" && (strings.HasPrefix(l, "fatal error:") || strings.HasPrefix(l, "panic:")) {
+			msg = strings.TrimSpace(l)
+		}
+	}
+	return idx, msg, idx >= 0 && msg != ""
 }
 
 func lastJSONLine(b []byte) []byte {
@@ -148,6 +168,11 @@ type replayOut struct {
 
 // replayFresh runs a scenario file in a fresh process.
 func replayFresh(self, file string, timeout time.Duration) (*replayOut, error) {
+	ro, err := replayFresh1(self, file, timeout)
+	return ro, err
+}
+
+func replayFresh1(self, file string, timeout time.Duration) (*replayOut, error) {
 	cmd := exec.Command(self, "replay", "-quiet", "-file", file)
 	var out, errb bytes.Buffer
 	cmd.Stdout = &out
@@ -175,6 +200,16 @@ func replayFresh(self, file string, timeout time.Duration) (*replayOut, error) {
 			}
 			return &ro, nil
 		}
+	}
+	if _, msg, ok := crashInfo("RUN 0\n" + errb.String()); ok {
+		// the replayed scenario brings the process down: that is the violation
+		prop := ""
+		if sc, err := readScenario(file); err == nil {
+			prop = sc.Property
+		}
+		return &replayOut{EventHash: "crash", Violations: []Violation{{Property: prop, Class: "crash", Site: msg,
+			Got: tail(errb.String(), 1500), Expected: "every validation returns normally",
+			Detail: "the process dies with a Go runtime fatal error / unrecovered panic while executing this history: " + msg}}}, nil
 	}
 	return nil, fmt.Errorf("replay produced no result\nstdout: %s\nstderr: %s", tail(out.String(), 1500), tail(errb.String(), 3000))
 }
@@ -250,6 +285,11 @@ func checkMain(args []string) {
 					return
 				}
 				mu.Unlock()
+				if res.Stopped == "crash" {
+					left -= (res.CrashIdx-offset)/jobs + 1
+					offset = res.NextIdx
+					continue
+				}
 				if res.Stopped != "race" {
 					return
 				}
@@ -289,6 +329,11 @@ func checkMain(args []string) {
 			sigs[s] = struct{}{}
 		}
 		agg.Violations = append(agg.Violations, r.Violations...)
+		if r.Stopped == "crash" {
+			agg.Probes["worker-process-crashes"]++
+			agg.Violations = append(agg.Violations, FoundViolation{Scenario: p.Gen(seed, *tier, r.CrashIdx), Idx: r.CrashIdx,
+				Violation: Violation{Property: p.ID, Class: "crash", Site: r.CrashMsg}})
+		}
 		if len(agg.Samples) < 4 {
 			agg.Samples = append(agg.Samples, r.Samples...)
 		}
@@ -328,15 +373,13 @@ func checkMain(args []string) {
 		if cv == nil {
 			die2("nondeterministic harness: violation %s found in run %d does not reproduce from its scenario in a fresh process (see %s)", s, fv.Idx, tmp)
 		}
-		if ro.EventHash != fmt.Sprintf("%016x", fv.EventHash) {
+		if fv.Violation.Class != "crash" && ro.EventHash != fmt.Sprintf("%016x", fv.EventHash) {
 			die2("nondeterministic harness: event log of run %d differs between worker (%016x) and fresh replay (%s) (see %s)", fv.Idx, fv.EventHash, ro.EventHash, tmp)
 		}
 		// minimise
 		test := func(c *Scenario) bool {
-			if !p.Race {
-				rep := p.Run(c, false)
-				return rep.HarnessErr == "" && hasSig(rep.Violations, s) != nil
-			}
+			// always in a fresh process: a corrupted pool can bring the whole process down, and race reports are
+			// de-duplicated per process
 			f := tmp + ".min-candidate"
 			if writeScenario(f, c) != nil {
 				return false
